@@ -1,31 +1,5 @@
 // ======================================================================================
 // units/C18/loc_todo.rs - contracts STATED but NOT YET PROVED.  NOT included by unit.rs /
 // loc_core.rs, so nothing in here is claimed.  Each hole moves to loc_core.rs once it verifies.
+// (empty: every function of lib/il/location.rs and Function::locations is proved in loc_core.rs)
 // ======================================================================================
-
-/// some instruction of some block of some function of `p` has address `a`
-pub open spec fn program_has_address(p: Program, a: u64) -> bool {
-    exists|k: usize, b: usize, q: int| #![trigger p.functions@[k], (*p.functions@[k]).control_flow_graph.graph.vertices@[b].instructions@[q]]
-        p.functions@.contains_key(k) && (*p.functions@[k]).control_flow_graph.has_block(b)
-        && 0 <= q < (*p.functions@[k]).control_flow_graph.blocks_view()[b].instructions@.len()
-        && (*p.functions@[k]).control_flow_graph.blocks_view()[b].instructions@[q].address == Some(a)
-}
-
-impl Function {
-//@ fn lib/il/function.rs :: impl Function :: fn locations
-//@ spec
-    requires self.function_wf(),
-    ensures /*@list*/ lists_rfls(r@, *self, |l: Loc| loc_valid(*self, l)),
-//@ end
-}
-
-impl<'p> RefProgramLocation<'p> {
-//@ fn lib/il/location.rs :: impl<'p> RefProgramLocation<'p> :: fn from_address
-//@ spec
-    requires program.program_wf(),
-    ensures
-        /*@found*/ r matches Some(x) ==> program.holds_function(*x.function) && x.rpl_wf()
-            && (x.function_location matches RefFunctionLocation::Instruction(_, ins) && ins.address == Some(address)),
-        /*@some*/ program_has_address(*program, address) ==> r is Some,
-//@ end
-}
